@@ -418,7 +418,7 @@ pub fn run_c01(ctx: &Ctx) -> i32 {
         json!(bounds.iter().map(|(a, t)| json!({"alphabet": a, "max_terms": t})).collect::<Vec<_>>()),
     );
     // Random part.
-    let n = tier.pick(200_000, 20_000_000);
+    let n = tier.pick(1_600_000, 20_000_000);
     par_cases(ctx, n, threads(), |i, cs, rng| {
         let kind = rng.below(10);
         if kind < 5 {
@@ -560,7 +560,7 @@ pub fn run_c02(ctx: &Ctx) -> i32 {
     ctx.count_n("ref_resolved_both", outcomes[3]);
     ctx.set_exhaustive(true);
     ctx.set_extra("exhaustive_bounds", json!({"alphabet": alphabet, "max_terms": max_terms}));
-    let n = tier.pick(200_000, 10_000_000);
+    let n = tier.pick(2_000_000, 10_000_000);
     par_cases(ctx, n, threads(), |i, cs, rng| {
         let alphabet = rng.range(2, 6);
         let terms = gen_terms(rng, 41, alphabet);
